@@ -4,6 +4,8 @@ import (
 	"context"
 	"iter"
 	"sync/atomic"
+
+	"github.com/openfga/openfga/internal/verifhook"
 )
 
 // kind distinguishes data nodes from the sentinel that terminates the list.
@@ -66,6 +68,7 @@ func (a *Accumulator[T]) Close() {
 	var n node[T]
 	n.Kind = end
 	oldHead := a.head.Swap(nil)
+	verifhook.Yield("mpsc.close.swapped")
 	oldHead.Next.Store(&n)
 	close(a.done)
 }
@@ -89,7 +92,9 @@ func (a *Accumulator[T]) Send(value T) bool {
 		if !a.head.CompareAndSwap(currentHead, &head) {
 			continue
 		}
+		verifhook.Yield("mpsc.send.swapped")
 		currentHead.Next.Store(&head)
+		verifhook.Yield("mpsc.send.linked")
 		select {
 		case a.signal <- struct{}{}:
 		default:
@@ -113,6 +118,7 @@ PopLoop:
 		nextNode := currentTail.Next.Load()
 
 		if nextNode == nil {
+			verifhook.Yield("mpsc.recv.beforePark")
 			select {
 			case <-a.signal:
 			case <-a.done:
